@@ -484,6 +484,21 @@ pub fn gen_schema(ch: &mut Choices, o: &SchemaGenOpts) -> GenSchema {
     if renamed {
         labels.push("renamed-roots");
     }
+    // explicit `schema { ... }` although every root has its default name; then an ordinary object type may
+    // be called Mutation / Subscription without being a root operation type
+    let explicit_default = o.renamed_roots && !renamed && ch.chance(1, 4);
+    if explicit_default {
+        labels.push("explicit-schema-with-default-names");
+        for (op, n) in [(OpType::Mutation, "Mutation"), (OpType::Subscription, "Subscription")] {
+            if !roots.iter().any(|r| r.0 == op) && ch.chance(1, 2) {
+                let mut t = MTypeDef::new(Kind::Object, n);
+                t.fields = pick_fields(ch, 1).iter().map(|f| field_dict[f].clone()).collect();
+                types.insert(n.to_string(), t);
+                root_order.push(n.to_string());
+                labels.push("non-root-type-with-root-name");
+            }
+        }
+    }
 
     // custom directives
     let mut directive_defs: Vec<MDirectiveDef> = vec![];
@@ -610,7 +625,7 @@ pub fn gen_schema(ch: &mut Choices, o: &SchemaGenOpts) -> GenSchema {
     }
 
     let mut doc: Vec<MTsDef> = vec![];
-    if renamed {
+    if renamed || explicit_default {
         let mut sd = MSchemaDef { desc: description(ch, o.descriptions), directives: vec![], roots: roots.clone() };
         for d in &directive_defs {
             if d.locations.iter().any(|l| l == "SCHEMA") && ch.chance(1, 3) && d.name == "tag" {
